@@ -12,6 +12,10 @@ Three layers (DESIGN.md section 7, C16):
       PARSEERR    error.make_error_from_parse_error
       PROCESS     the real glue.process_ir driven with stub passes (module attributes patched)
       QUEUE       the real glue.only_parse_emboss_file on random import graphs (dict readers)
+      (round 2, harness/corr/C16drv.py) FINDREAD / READERR / PATH / EMBOSSC / FRONTEND / CODEGEN /
+                  TOKLOC / MERGE: _find_in_dirs_and_read on real directory trees with file-system
+                  faults, the unreadable-file group, the three executables' main() in-process with
+                  stubbed front end / back end, token locations and merge_source_locations
  3. Exploration (the main engine for the unmodelled passes): generated inputs through
     glue.parse_emboss_file, header_generator.generate_header, IR serialisation,
     error.format_errors with the real sources, and the executables in subprocesses; the
@@ -901,7 +905,7 @@ def cli_cases(r, n, pool_cases):
                 "raw": {"m.emb": b'import "a\x00b.emb" as x\nstruct Foo:\n  0 [+1]  UInt  x\n'}})
     # file-system level faults: main file / imports that exist but cannot be opened as text,
     # across one or two --import-dir's (quick: a rotating sample, thorough: all of them)
-    out += drv.fs_cli_cases(r, 14 if n < 50 else 10 ** 6)
+    out += drv.fs_cli_cases(r, 10 if n < 50 else 10 ** 6)
     picks = r.sample(pool_cases, min(n, len(pool_cases)))
     for c in picks:
         if all(_plain_name(k) for k in c["files"]):
@@ -1085,6 +1089,8 @@ def _run(tier):
                        "non-trivial & distinct = distinct (outcome class, normalised first error message) of the "
                        "exploration + distinct model answers of the FORMAT/PROCESS/QUEUE ties")
     chk.trusted += ["Python str.splitlines/repr as oracles for the model's re-implementations (tied by ops SPLITLINES/REPR)",
+                    "open()/os.path as primitives: the per-directory outcome of open().read() is classified by the harness and "
+                    "given to the model (FINDREAD); os.path.join/dirname are tied by PATH",
                     "the exploration samples: totality of passes outside the model (module_ir, symbol_resolver, "
                     "type_check, expression_bounds, constraints, attribute checkers, write_inference, back end) is "
                     "exploration only"]
